@@ -35,7 +35,7 @@ impl Arm for HistArm {
             ("C02", Tier::Quick) => 2000,
             ("C02", Tier::Thorough) => 20_000,
             ("C03", Tier::Quick) => 800,
-            ("C03", Tier::Thorough) => 10_000,
+            ("C03", Tier::Thorough) => 4_000,
             ("C04", Tier::Quick) => 2000,
             ("C04", Tier::Thorough) => 8_000,
             ("C20", Tier::Quick) => 800,
